@@ -22,6 +22,42 @@ def write_vcf(path, vcf):
         f.write('\n'.join(lines) + '\n')
 
 
+def make_reads(reads, contigs):
+    """in-memory pysam reads for getAllele(reads)"""
+    import pysam
+    names = list(contigs) + sorted(set(r['chrom'] for r in reads if r is not None) - set(contigs))
+    header = pysam.AlignmentHeader.from_dict({'HD': {'VN': '1.6'}, 'SQ': [{'SN': c, 'LN': 100000} for c in names]})
+    out, pairs = [], []
+    for k, r in enumerate(reads):
+        if r is None:
+            out.append(None)
+            continue
+        a = pysam.AlignedSegment(header)
+        a.query_name = 'r%d' % k
+        a.query_sequence = r['seq']
+        a.flag = 4 if r.get('unmapped') else 0
+        a.reference_id = names.index(r['chrom'])
+        a.reference_start = r['pos']
+        a.mapping_quality = 60
+        a.cigar = [tuple(x) for x in r['cigar']]
+        a.query_qualities = pysam.qualitystring_to_array('I' * len(r['seq']))
+        out.append(a)
+        if not r.get('unmapped'):
+            pairs.append([list(x) for x in a.get_aligned_pairs(matches_only=True)])
+    return out, pairs
+
+
+def do_query(ar, q, contigs, seen_pairs):
+    if q[0] == 0:
+        r = ar.getAllelesAt(q[1], q[2], q[3])
+        return None if r is None else sorted(r)
+    if q[0] == 1:
+        return bool(ar.has_location(q[1], q[2]))
+    reads, pairs = make_reads(q[1], contigs)
+    seen_pairs.append(pairs)
+    return sorted(ar.getAllele(reads))
+
+
 def run_case(case, n):
     import pysam
     from singlecellmultiomics.alleleTools import AlleleResolver
@@ -38,6 +74,7 @@ def run_case(case, n):
                          [list(d.alleles) for s, d in rec.samples.items()]])
     runs = []
     noise = []
+    read_pairs = []
     for run in case['history']:
         cf = run['cfg']
         kw = dict(phased=cf['phased'], lazyLoad=cf['lazy'], use_cache=cf['cache'],
@@ -56,12 +93,7 @@ def run_case(case, n):
             ans = []
             for q in run['queries']:
                 try:
-                    if q[0] == 0:
-                        r = ar.getAllelesAt(q[1], q[2], q[3])
-                        ans.append(None if r is None else sorted(r))
-                    else:
-                        r = ar.has_location(q[1], q[2])
-                        ans.append(bool(r))
+                    ans.append(do_query(ar, q, case['vcf']['contigs'], read_pairs))
                 except BaseException as e:
                     ans.append({'error': '%s: %s' % (type(e).__name__, e)})
             runs.append(ans)
@@ -77,7 +109,8 @@ def run_case(case, n):
                     cache[fn] = f.read()
             except BaseException as e:
                 cache[fn] = {'error': '%s: %s' % (type(e).__name__, e)}
-    return {'runs': runs, 'cache': cache, 'view': view, 'samples': samples, 'contigs': contigs, 'printed': noise}
+    return {'runs': runs, 'cache': cache, 'view': view, 'samples': samples, 'contigs': contigs, 'printed': noise,
+            'read_pairs': read_pairs}
 
 
 def read_cache_dir(path):
@@ -104,7 +137,7 @@ def run_group(group, n):
         write_vcf(base, sess['vcf'])
         pysam.tabix_index(base, preset='vcf', force=True)
         paths.append(base + '.gz')
-    objs, answers = {}, []
+    objs, answers, read_pairs = {}, [], []
     old = sys.stdout
     sys.stdout = io.StringIO()
     try:
@@ -123,16 +156,12 @@ def run_group(group, n):
                 answers.append('RAISE')
                 continue
             try:
-                if q[0] == 0:
-                    r = ar.getAllelesAt(q[1], q[2], q[3])
-                    answers.append(None if r is None else sorted(r))
-                else:
-                    answers.append(bool(ar.has_location(q[1], q[2])))
+                answers.append(do_query(ar, q, group['sessions'][s_]['vcf']['contigs'], read_pairs))
             except BaseException as e:
                 answers.append({'error': '%s: %s' % (type(e).__name__, e)})
     finally:
         sys.stdout = old
-    return {'answers': answers, 'caches': [read_cache_dir(p_) for p_ in paths]}
+    return {'answers': answers, 'caches': [read_cache_dir(p_) for p_ in paths], 'read_pairs': read_pairs}
 
 
 def read_cache_text(text, n):
